@@ -194,6 +194,7 @@ def check(repo, col, tier):
     _elim(repo, col)
     _schedule(repo, col)
     _ends(repo, col)
+    category_major(repo, col, "R-C01-ends")
     _scheme(repo, col)
     _refuse(repo, col)
     col.rule("R-C01-explicit", "forward Euler vector field of an unbranched module", 4)
@@ -1931,3 +1932,83 @@ def _levels(repo, col, R="R-C01-levels"):
                       f"(c = first compartment of the branch, n = its number of compartments)", node=d)
         except Und as e:
             col.unk(R, fi, f"{cls}: within-branch edges", str(e), node=d)
+
+
+def category_major(repo, col, R):
+    """The edge table of a network is CATEGORY-major: all within-branch edges (type 0) of all cells, then all branch-point -> compartment
+    edges (types 1, 2) of all cells, then all compartment -> branch-point edges (types 3, 4).  `compute_axial_conductances` returns the
+    conductances as the concatenation [type 0, types 1/2, types 3/4], each part in table order, and every consumer pairs conductance k
+    with row k of the table.  A loop over the cells that appends two categories per cell produces a cell-major table, and from the second
+    branched cell on the conductances and the Kirchhoff weights sit on the wrong edges."""
+    fi = repo.method("Network", "_init_morph_jax_spsolve")
+    ex = idxm.expander(repo, fi)
+    CAT = {0: "A", 1: "B", 2: "B", 3: "C", 4: "C"}
+
+    def types_of(t):
+        out = set()
+        for x in t.walk():
+            if x.op == "cmp" and x.name == "==" and any(a_.op == "const" and isinstance(a_.name, int) for a_ in x.args) and \
+                    any(T.find(a_, lambda y: y.op == "const" and y.name == "type") is not None for a_ in x.args):
+                out |= {a_.name for a_ in x.args if a_.op == "const" and isinstance(a_.name, int)}
+            if x.op == "mcall" and x.name == "isin" and T.find(x.args[0], lambda y: y.op == "const" and y.name == "type") is not None:
+                for a_ in x.args[1:]:
+                    if a_.op in ("list", "tuple"):
+                        out |= {c_.name for c_ in a_.args if c_.op == "const" and isinstance(c_.name, int)}
+        return out
+
+    seq = []   # (loop node or None, categories appended by one statement, in order)
+    def visit(stmts, loop):
+        for st in stmts:
+            if isinstance(st, (ast.For, ast.While)):
+                visit(st.body, st if loop is None else loop)
+                continue
+            if isinstance(st, ast.If):
+                visit(st.body, loop)
+                visit(st.orelse, loop)
+                continue
+            if isinstance(st, ast.Assign) and any(isinstance(t_, ast.Attribute) and t_.attr == "_comp_edges" for t_ in st.targets) and \
+                    isinstance(st.value, ast.Call) and unparse(st.value.func).split(".")[-1] in ("concat", "concatenate") and st.value.args and \
+                    isinstance(st.value.args[0], (ast.List, ast.Tuple)):
+                for el in st.value.args[0].elts:
+                    if isinstance(el, ast.Attribute) and el.attr == "_comp_edges":
+                        continue
+                    ts = types_of(ex.term(el))
+                    cats = {CAT.get(k_) for k_ in ts}
+                    seq.append((loop, cats, st))
+    visit(fi.node.body, None)
+    if len(seq) < 3 or any(not c_ or None in c_ for _l, c_, _s in seq):
+        col.unk(R, fi, "the edge table of a network is built category by category", f"appended blocks: {[sorted(c_) for _l, c_, _s in seq]}", node=fi.node)
+        return
+    order = []
+    mixed_loop = None
+    by_loop = {}
+    for l_, c_, s_ in seq:
+        if len(c_) != 1:
+            mixed_loop = mixed_loop or s_
+        k_ = next(iter(c_))
+        if not order or order[-1] != k_:
+            order.append(k_)
+        if l_ is not None:
+            by_loop.setdefault(id(l_), []).append((k_, s_))
+    for _lid, items in by_loop.items():
+        if len({k_ for k_, _s in items}) > 1:
+            mixed_loop = mixed_loop or items[0][1]
+    ok = order == ["A", "B", "C"] and mixed_loop is None
+    col.check(ok, R, fi, "the edge table of a network is built category by category (type 0 | types 1, 2 | types 3, 4), each over all cells",
+              "three loops over the cells, one per category",
+              f"blocks are appended in the order {[(sorted(c_)) for _l, c_, _s in seq]}" + (": one loop over the cells appends two categories per cell, so the table "
+              "is cell-major; compute_axial_conductances returns [type 0 | types 1, 2 | types 3, 4] and row k of the table no longer meets conductance k "
+              "as soon as two cells have branch points" if mixed_loop is not None else ""), node=mixed_loop or fi.node)
+    # the producer of the conductances: same three categories, in this order
+    cf = repo.func("jaxley/utils/cell_utils.py", "compute_axial_conductances")
+    exc = idxm.expander(repo, cf)
+    conds = []
+    for n in walk_no_nested(cf.node):
+        if isinstance(n, ast.Assign) and len(n.targets) == 1 and isinstance(n.targets[0], ast.Name):
+            ts = types_of(exc.term(n.value))
+            if ts and exc.term(n.value).op in ("cmp", "mcall"):
+                cs = {CAT.get(k_) for k_ in ts}
+                if len(cs) == 1 and (not conds or conds[-1] != next(iter(cs))):
+                    conds.append(next(iter(cs)))
+    col.check(conds == ["A", "B", "C"], R, cf, "compute_axial_conductances computes [type 0 | types 1, 2 | types 3, 4] in this order", "A, B, C",
+              f"the type selections appear in the order {conds}", node=cf.node)
